@@ -68,15 +68,15 @@ const realVsStub = "real: client, frame, segment, message, primitive, datatype, 
 
 var cfgs = map[string]*propCfg{
 	"C04": {Profile: "client", QuickCases: 48, ThoroughCases: 4000, QuickSecs: 140, ThoroughSecs: 2400, Level: "exploration",
-		Rule: "case = (a) one seeded live session inside the simulator: a real client or server connection (all versions, compressions) against a hostile raw peer that, after a valid handshake, sends valid encodings of generated frames altered in flight (bit flip, overwritten 2/4-byte field, truncation, duplicated/removed range), in v5 wrapped in segments with valid checksums so that they reach the frame decoder, or hostile segments; then the peer leaves; (b) a batch of ~60 (entry point, valid encoding) targets covering frame/raw frame/header/body/raw body/discard, every message codec, ReadDataType, primitive Read*, DecodeSegment, both decompressors in both formats and datacodec Decode for scalar and composite CQL types x destination kinds; for encodings up to 320 bytes EVERY single-bit flip, every 2- and 4-byte position overwritten with each special value (-1, -2, 0, 1, 0x7f.., 0x80.., 64 MiB, 2 GiB on one shard) and every truncation is tried, larger encodings are sampled; plus duplicated/deleted ranges, garbage and readers that short-read and fail at an offset. Oracle: no panic, every call returns within the watchdog, nothing stays blocked after the peer left. evaluations = simulated runs + direct decoder calls; distinct_nontrivial = distinct live-run fingerprints (the enumerated direct alterations are pairwise distinct by construction but are reported separately under counters)",
+		Rule: "case = (a) one seeded live session inside the simulator: a real client or server connection (all versions, compressions) against a hostile raw peer that, after a valid handshake, sends valid encodings of generated frames altered in flight (bit flip, overwritten 2/4-byte field, truncation, duplicated/removed range), in v5 wrapped in segments with valid checksums so that they reach the frame decoder, or hostile segments; then the peer leaves; (b) a batch of ~60 (entry point, valid encoding) targets covering frame/raw frame/header/body/raw body/discard, every message codec, ReadDataType, primitive Read*, DecodeSegment (also through a descriptor target that rebuilds valid CRC-24/CRC-32 around every alteration, so that declared lengths and compressed payloads behind the checksum stage are reached), both decompressors in both formats and datacodec Decode for scalar and composite CQL types x destination kinds; for encodings up to 320 bytes EVERY single-bit flip, every 2- and 4-byte position overwritten with each special value (-1, -2, 0, 1, 0x7f.., 0x80.., 64 MiB, 2 GiB on one shard) and every truncation is tried, larger encodings are sampled; plus duplicated/deleted ranges, garbage and readers that short-read and fail at an offset. Oracle: no panic, every call returns within the watchdog, nothing stays blocked after the peer left. evaluations = simulated runs + direct decoder calls; distinct_nontrivial = distinct live-run fingerprints (the enumerated direct alterations are pairwise distinct by construction but are reported separately under counters)",
 		Assumptions: []string{"input space 'all byte strings' is not claimed: only alterations of valid encodings (the property's own fault vocabulary); out-of-memory is not in the property statement: 2 GiB declared lengths are injected on one worker only"}},
-	"C03": {Profile: "client", QuickCases: 3200, ThoroughCases: 150000, QuickSecs: 120, ThoroughSecs: 1800, Level: "exploration",
-		Rule: "case = 1-40 generated version-valid frames of every message kind (all versions, body compression none/LZ4/Snappy, every header-flag combination incl. tracing requested on requests, up to 300 KiB) encoded back-to-back by a writer task straight onto a simulated connection with drawn capacity (1 B..1 MiB back-pressure), latency and read chunking, and decoded by a reader task with DecodeFrame, DecodeRawFrame+Convert or DecodeHeader+DecodeBody until EOF. Oracles: wire bytes per frame = header + BodyLength left in the frame = length in the header on the wire; an independent splitter by declared lengths (refwire) finds exactly the encoder's frames; decoded sequence equals sent sequence; the reader has consumed exactly up to each frame boundary; nobody waits for bytes that never come; EncodedLength of each message equals the bytes its encoder writes. distinct = distinct event-log fingerprints; non-trivial = at least two frames decoded",
+	"C03": {Profile: "client", QuickCases: 4800, ThoroughCases: 150000, QuickSecs: 120, ThoroughSecs: 1800, Level: "exploration",
+		Rule: "case = 1-40 generated version-valid frames of every message kind (all versions, body compression none/LZ4/Snappy, every header-flag combination incl. tracing requested on requests, up to 300 KiB) encoded back-to-back by a writer task straight onto a simulated connection with drawn capacity (1 B..1 MiB back-pressure), latency and read chunking, and decoded by a reader task with DecodeFrame, DecodeRawFrame+Convert or DecodeHeader+DecodeBody until EOF; the decoder's source is drawn: the connection, a *bytes.Buffer or *bytes.Reader holding the whole stream, a bufio.Reader over the connection, or one *bytes.Buffer written and read in turns; in a third of the cases the writer also attempts unencodable frames (to a scratch destination) between the valid ones. Oracles: wire bytes per frame = header + BodyLength left in the frame = length in the header on the wire; an independent splitter by declared lengths (refwire) finds exactly the encoder's frames; decoded sequence equals sent sequence; the reader has consumed exactly up to each frame boundary; nobody waits for bytes that never come; EncodedLength of each message equals the bytes its encoder writes. distinct = distinct event-log fingerprints; non-trivial = at least two frames decoded",
 		Assumptions: []string{"the per-notation LengthOf*/Write* clause over whole value domains is pure and is covered only as far as generated frames exercise the notations"}},
 	"C05": {Profile: "client", QuickCases: 960, ThoroughCases: 100000, QuickSecs: 120, ThoroughSecs: 1800, Level: "exploration",
-		Rule: "case = (1) writer -> link A -> proxy task -> link B -> reader with 1-24 generated frames (versions, compressions); the proxy forwards each frame with a drawn partial operation (DecodeRawFrame>EncodeRawFrame, DecodeHeader+DecodeRawBody, raw>frame>raw conversion, DecodeHeader+DecodeBody>EncodeBody+EncodeHeader, DecodeFrame>EncodeFrame, DecodeHeader+DiscardBody) from the non-seekable link or from a seekable buffer; oracles: exact consumption after every operation, both decoding routes agree on the tapped bytes, reader receives exactly the forwarded frames equal to what was written; (2) re-encode clause: valid and mutated (bit flips, overwritten 2/4-byte fields) encodings that still decode are re-encoded and must decode to an equal frame. distinct = distinct event-log fingerprints; non-trivial = at least one frame forwarded / decoded"},
-	"C18": {Profile: "codecs", QuickCases: 2400, ThoroughCases: 120000, QuickSecs: 120, ThoroughSecs: 1800, Level: "exploration",
-		Rule: "case = 2-4 tasks making 1-3 groups of calls each on SHARED instances (frame codecs with no/LZ4/Snappy compressor incl. raw decoding and conversion, segment codecs without/with LZ4, both compressors in both formats, the datacodec package singletons and shared list/set/map/tuple codecs) with generated frames, payloads and values; every statement of the codec packages is a scheduling point and the interleaving is drawn from the tape. Oracle: each call's result (bytes, decoded frame/value or error text) equals the result of the same call in a sequential pass on the same instances before the concurrent phase, and a second sequential pass afterwards still agrees. distinct = distinct event-log fingerprints; non-trivial = the concurrent phase contained at least one switch between tasks that were both inside repository code",
+		Rule: "case = (1) writer -> link A -> proxy task -> link B -> reader with 1-24 generated frames (versions, compressions); the proxy forwards each frame with a drawn partial operation (DecodeRawFrame>EncodeRawFrame, DecodeHeader+DecodeRawBody, raw>frame>raw conversion, DecodeHeader+DecodeBody>EncodeBody+EncodeHeader, DecodeFrame>EncodeFrame, DecodeHeader+DiscardBody) from the non-seekable link or from a seekable buffer (bodies up to 250 KB on links that are not tiny); oracles: exact consumption after every operation, both decoding routes agree on the tapped bytes, reader receives exactly the forwarded frames equal to what was written; (2) re-encode clause: valid and mutated (bit flips, overwritten 2/4-byte fields) encodings that still decode are re-encoded and must decode to an equal frame. distinct = distinct event-log fingerprints; non-trivial = at least one frame forwarded / decoded"},
+	"C18": {Profile: "codecs", QuickCases: 9600, ThoroughCases: 120000, QuickSecs: 120, ThoroughSecs: 1800, Level: "exploration",
+		Rule: "case = 2-6 tasks making 1-7 groups of calls each on SHARED instances (frame codecs with no/LZ4/Snappy compressor incl. raw decoding and conversion, segment codecs without/with LZ4, both compressors in both formats, the datacodec package singletons and shared list/set/map/tuple codecs) with generated frames, payloads and values; every statement of the codec packages is a scheduling point and the interleaving is drawn from the tape. 40% of the cases are focused on one family (one frame codec, one segment codec, one compressor, the value codecs) with more tasks and optionally growing payload sizes. First use is drawn: instances warmed by a sequential pass, fresh instances (reference pass on twins), or no reference pass at all so that instances AND package-level state are cold when the tasks start (package-level variables of the code under test are restored to their post-initialisation values before every run). Oracle: each call's result (bytes, decoded frame/value or error text; compress/decompress must round-trip) equals the result of the same call in a sequential pass, and a sequential pass after the concurrent phase still agrees. distinct = distinct event-log fingerprints; non-trivial = the concurrent phase contained at least one switch between tasks that were both inside repository code",
 		Assumptions: []string{"the data-race clause is checked by a supplementary, non-deterministic run of the same workload on the un-instrumented tree under the Go race detector (labelled in the evidence); the deterministic scheduler cannot observe races that never change a result"}},
 	"C15": {Profile: "client", QuickCases: 960, ThoroughCases: 60000, QuickSecs: 120, ThoroughSecs: 1800, Level: "exploration",
 		Rule: "case = three seeded fault-free sessions (version, compression, auth, link capacity/latency/chunking and schedule drawn): (1) real client <-> real server exchanging generated version-valid frames of every message kind (framegen), compared after normalisation in both directions, with both wire taps parsed by the independent refwire codec (unframed handshake, then valid v5 segments, envelopes not individually compressed); (2) a raw refwire client against the real server and (3) a raw refwire server against the real client, packing several envelopes into one segment and splitting envelopes (up to ~400 KiB) over non-self-contained segments at drawn points. distinct = distinct event-log fingerprints; non-trivial = at least one frame delivered and at least one switch between tasks inside repository code",
